@@ -3,15 +3,17 @@
 #define UTF8_END   -1
 #define UTF8_ERROR -2
 
+#include <stddef.h>
+
 typedef struct utf8_decode_s {
-    int the_index;
-    int the_length;
-    int the_char;
-    int the_byte;
+    size_t the_index;
+    size_t the_length;
+    size_t the_char;
+    size_t the_byte;
     const char* the_input;
 } utf8_decode_t;
 
-extern int  utf8_decode_at_byte(utf8_decode_t *u);
-extern int  utf8_decode_at_character(utf8_decode_t *u);
-extern void utf8_decode_init(const char p[], int length, utf8_decode_t *u);
+extern size_t utf8_decode_at_byte(utf8_decode_t *u);
+extern size_t utf8_decode_at_character(utf8_decode_t *u);
+extern void utf8_decode_init(const char p[], size_t length, utf8_decode_t *u);
 extern int  utf8_decode_next(utf8_decode_t *u);
